@@ -65,9 +65,321 @@ pub fn eval_check(check: &str, case: &Case, replies: &[String]) -> Result<(), St
                 Err(format!("RUN printed {:?} but line order says {:?}", got, expected))
             }
         }
-        _ => {
-            let _ = case;
-            Err(format!("unknown check {:?}", check))
+        _ => match eval_session_check(check, case, replies) {
+            Some(r) => r,
+            None => Err(format!("unknown check {:?}", check)),
+        },
+    }
+}
+
+// ---------------------------------------------------------------------------
+// session oracles
+
+fn is_call(op: &str) -> bool {
+    op == "cont" || op == "start" || op.starts_with("start ")
+}
+
+pub fn snapshot_fields(snap: &str) -> Vec<(String, String)> {
+    snap.split(" ; ")
+        .filter_map(|kv| kv.find('=').map(|i| (kv[..i].to_string(), kv[i + 1..].to_string())))
+        .collect()
+}
+
+fn field<'a>(fields: &'a [(String, String)], key: &str) -> &'a str {
+    fields.iter().find(|(k, _)| k == key).map(|(_, v)| v.as_str()).unwrap_or("")
+}
+
+/// C16 oracle on one snapshot.
+pub fn snap_caps(snap: &str) -> Result<(), String> {
+    let f = snapshot_fields(snap);
+    let stack = field(&f, "stack");
+    let frames = stack.matches("[ret=").count();
+    if frames > 32 {
+        return Err(format!("{} stack frames held (cap 32)", frames));
+    }
+    // function parameter bindings obey suffix typing
+    for fr in stack.split("[ret=").skip(1) {
+        if let Some(v) = fr.split(" vars=").nth(1) {
+            let v = v.trim_end_matches(']');
+            for kv in v.split(',').filter(|x| !x.is_empty()) {
+                check_suffix(kv)?;
+            }
         }
     }
+    let loops = field(&f, "loops");
+    let names: Vec<&str> = loops.split('[').skip(1).map(|l| l.split('@').next().unwrap_or("")).collect();
+    if names.len() > 32 {
+        return Err(format!("{} open FOR loops held (cap 32)", names.len()));
+    }
+    let mut sorted = names.clone();
+    sorted.sort();
+    sorted.dedup();
+    if sorted.len() != names.len() {
+        return Err(format!("two open FOR loops for the same variable: {:?}", names));
+    }
+    for kv in field(&f, "vars").split(',').filter(|x| !x.is_empty()) {
+        check_suffix(kv)?;
+    }
+    for a in field(&f, "arrays").split(' ').filter(|x| !x.is_empty()) {
+        // name:K:d1xd2:count:{...}
+        let parts: Vec<&str> = a.splitn(5, ':').collect();
+        if parts.len() < 5 {
+            return Err(format!("unparsable array entry {}", a));
+        }
+        let (name, kind, dims, count) = (parts[0], parts[1], parts[2], parts[3]);
+        let prod: u128 = dims.split('x').map(|d| d.parse::<u128>().unwrap_or(0)).product();
+        let count: u128 = count.parse().unwrap_or(u128::MAX);
+        if prod != count {
+            return Err(format!("array {} has {} cells but dimensions {} (product {})", name, count, dims, prod));
+        }
+        if count > 10000 {
+            return Err(format!("array {} has {} cells (cap 10000)", name, count));
+        }
+        let want = if name.ends_with('$') { "S" } else { "N" };
+        if kind != want {
+            return Err(format!("array {} stores kind {} against its name suffix", name, kind));
+        }
+    }
+    Ok(())
+}
+
+fn check_suffix(kv: &str) -> Result<(), String> {
+    let mut it = kv.splitn(2, '=');
+    let name = it.next().unwrap_or("");
+    let val = it.next().unwrap_or("");
+    let is_str = val.starts_with('s');
+    if name.ends_with('$') != is_str {
+        return Err(format!("{} holds a {} against its name suffix", name, if is_str { "string" } else { "number" }));
+    }
+    Ok(())
+}
+
+fn parse_range(s: &str) -> (usize, usize) {
+    let mut it = s.split('-');
+    (it.next().unwrap().parse().unwrap(), it.next().unwrap().parse().unwrap())
+}
+
+/// The observable transcript of ops[a..=b]: output records (minus the filtered
+/// kinds), input replies, and errors of host calls.
+pub fn transcript(case: &Case, replies: &[String], a: usize, b: usize, drop: &str, ignore: &[usize]) -> Vec<String> {
+    let mut ev = vec![];
+    for i in a..=b.min(case.ops.len() - 1) {
+        if ignore.contains(&i) {
+            continue;
+        }
+        let op = &case.ops[i];
+        let r = &replies[i];
+        if op == "take" {
+            for rec in r.split(' ').filter(|x| !x.is_empty() && *x != "-") {
+                let k = &rec[..1];
+                if k == "B" || drop.contains(k) {
+                    continue;
+                }
+                ev.push(rec.to_string());
+            }
+        } else if op == "reply" || op.starts_with("reply ") {
+            ev.push(format!("?{}", op));
+        } else if is_call(op) && r.starts_with("err ") {
+            ev.push(format!("E:{}", &r[4..]));
+        }
+    }
+    ev
+}
+
+pub fn eval_session_check(check: &str, case: &Case, replies: &[String]) -> Option<Result<(), String>> {
+    let parts: Vec<&str> = check.split(' ').collect();
+    Some(match parts.as_slice() {
+        ["err-then-idle"] => {
+            let mut res = Ok(());
+            for i in 0..case.ops.len() {
+                if is_call(&case.ops[i]) && replies[i].starts_with("err ") {
+                    if let Some(j) = (i + 1..case.ops.len()).find(|&j| case.ops[j] == "state" || is_call(&case.ops[j]) || case.ops[j] == "break") {
+                        if case.ops[j] == "state" && replies[j] != "Idle" {
+                            res = Err(format!("after the error at op {} ({}) the interpreter is {} instead of Idle", i, replies[i], replies[j]));
+                            break;
+                        }
+                    }
+                }
+            }
+            res
+        }
+        ["snap-caps"] => {
+            let mut res = Ok(());
+            for i in 0..case.ops.len() {
+                if case.ops[i] == "snap" && !replies[i].starts_with("PANIC") && replies[i] != "POISONED" {
+                    if let Err(e) = snap_caps(&replies[i]) {
+                        res = Err(format!("snapshot at op {}: {}", i, e));
+                        break;
+                    }
+                }
+            }
+            res
+        }
+        ["transcript-eq", ra, rb, rest @ ..] => {
+            let (a1, a2) = parse_range(ra);
+            let (b1, b2) = parse_range(rb);
+            let mut drop = String::new();
+            let mut ignore: Vec<usize> = vec![];
+            let mut prefix = false;
+            for r in rest {
+                if *r == "prefix" {
+                    prefix = true;
+                } else if let Some(d) = r.strip_prefix("drop=") {
+                    drop = d.to_string();
+                } else if let Some(ig) = r.strip_prefix("ignore=") {
+                    ignore = ig.split(',').filter_map(|x| x.parse().ok()).collect();
+                }
+            }
+            let mut ta = transcript(case, replies, a1, a2, &drop, &ignore);
+            let mut tb = transcript(case, replies, b1, b2, &drop, &ignore);
+            if prefix {
+                let n = ta.len().min(tb.len());
+                // only when a run did not end on its own (still has a pending breakpoint) may it be shorter
+                ta.truncate(n);
+                tb.truncate(n);
+            }
+            if ta == tb {
+                Ok(())
+            } else {
+                let k = (0..ta.len().min(tb.len())).find(|&k| ta[k] != tb[k]).unwrap_or(ta.len().min(tb.len()));
+                Err(format!(
+                    "transcripts differ at event {}: {:?} vs {:?} (lengths {} and {})",
+                    k,
+                    ta.get(k),
+                    tb.get(k),
+                    ta.len(),
+                    tb.len()
+                ))
+            }
+        }
+        ["snap-eq", i, j, rest @ ..] => {
+            let (i, j): (usize, usize) = (i.parse().unwrap(), j.parse().unwrap());
+            let except: Vec<&str> = rest.iter().filter_map(|r| r.strip_prefix("except=")).flat_map(|e| e.split(',')).collect();
+            let fa = snapshot_fields(&replies[i]);
+            let fb = snapshot_fields(&replies[j]);
+            let mut res = Ok(());
+            for (k, v) in &fa {
+                if except.contains(&k.as_str()) {
+                    continue;
+                }
+                if field(&fb, k) != v {
+                    res = Err(format!("state field {} differs: {} vs {}", k, v, field(&fb, k)));
+                    break;
+                }
+            }
+            res
+        }
+        // C09: per host call at most one Print record and at most `max_t` Trace records
+        ["calls-bounded", max_t] => {
+            let max_t: usize = max_t.parse().unwrap();
+            let mut res = Ok(());
+            for i in 0..case.ops.len() {
+                if is_call(&case.ops[i]) {
+                    if let Some(j) = (i + 1..case.ops.len()).find(|&j| case.ops[j] == "take" || is_call(&case.ops[j])) {
+                        if case.ops[j] == "take" {
+                            let recs: Vec<&str> = replies[j].split(' ').collect();
+                            let p = recs.iter().filter(|r| r.starts_with("P:")).count();
+                            let t = recs.iter().filter(|r| r.starts_with("T:")).count();
+                            let is_list = case.ops[i].starts_with("start ") && crate::imp::unhex(&case.ops[i][6..]).map(|s| s.trim().to_uppercase().starts_with("LIST")).unwrap_or(false);
+                            if p > 1 && !is_list {
+                                res = Err(format!("host call at op {} produced {} Print records (more than one statement ran)", i, p));
+                                break;
+                            }
+                            if t > max_t {
+                                res = Err(format!("host call at op {} produced {} Trace records (more than one statement chain ran)", i, t));
+                                break;
+                            }
+                        }
+                    }
+                }
+            }
+            res
+        }
+        // C09: token-cursor reads per call bounded by K * (longest line length) + K'
+        ["reads-bounded", k, k0, len] => {
+            let (k, k0, len): (u64, u64, u64) = (k.parse().unwrap(), k0.parse().unwrap(), len.parse().unwrap());
+            let mut prev: Option<u64> = None;
+            let mut res = Ok(());
+            for i in 0..case.ops.len() {
+                if case.ops[i] == "reads" {
+                    if let Ok(v) = replies[i].parse::<u64>() {
+                        if let Some(p) = prev {
+                            if v.saturating_sub(p) > k * len + k0 {
+                                res = Err(format!("{} token reads in the host call before op {} (bound {}*{}+{})", v - p, i, k, len, k0));
+                                break;
+                            }
+                        }
+                        prev = Some(v);
+                    }
+                } else if case.ops[i].starts_with("new ") || case.ops[i] == "replace" {
+                    prev = None;
+                }
+            }
+            res
+        }
+        ["snap-after-edit-clean", i] => {
+            let i: usize = i.parse().unwrap();
+            let f = snapshot_fields(&replies[i]);
+            let mut res = Ok(());
+            for (k, want) in [("bp", "-"), ("stack", ""), ("loops", ""), ("data", "-"), ("fns", "")] {
+                if field(&f, k) != want {
+                    res = Err(format!("after a successful edit the runtime reference `{}` is still {:?}", k, field(&f, k)));
+                    break;
+                }
+            }
+            res
+        }
+        ["trace-lines-exist", r] => {
+            let (a, b) = parse_range(r);
+            let mut lines: Vec<String> = vec![];
+            let mut res = Ok(());
+            for i in a..=b.min(case.ops.len() - 1) {
+                if let Some(h) = case.ops[i].strip_prefix("start ") {
+                    if let Some(t) = crate::imp::unhex(h) {
+                        let d: String = t.trim_start().chars().take_while(|c| c.is_ascii_digit()).collect();
+                        if !d.is_empty() {
+                            lines.push(d.trim_start_matches('0').to_string());
+                        }
+                    }
+                }
+                if case.ops[i] == "take" {
+                    for rec in replies[i].split(' ') {
+                        if let Some(n) = rec.strip_prefix("T:") {
+                            if !lines.iter().any(|l| l == n || (l.is_empty() && n == "0")) {
+                                res = Err(format!("trace record #{} names a line that was never entered", n));
+                            }
+                        }
+                    }
+                }
+            }
+            res
+        }
+        ["take-has", i, rec] => {
+            let i: usize = i.parse().unwrap();
+            if replies[i].split(' ').any(|r| r == *rec) {
+                Ok(())
+            } else {
+                Err(format!("output after op {} is {} — expected a {} record", i, replies[i], rec))
+            }
+        }
+        ["take-lacks", i, rec] => {
+            let i: usize = i.parse().unwrap();
+            if replies[i].split(' ').any(|r| r == *rec) {
+                Err(format!("output after op {} is {} — unexpected {} record", i, replies[i], rec))
+            } else {
+                Ok(())
+            }
+        }
+        ["no-syntax-error"] => {
+            let mut res = Ok(());
+            for i in 0..case.ops.len() {
+                if is_call(&case.ops[i]) && replies[i].starts_with("err Syntax.") {
+                    res = Err(format!("a well-formed program failed with {} at op {}", replies[i], i));
+                    break;
+                }
+            }
+            res
+        }
+        _ => return None,
+    })
 }
